@@ -475,6 +475,52 @@ fn run_plan(op: &FOp, c: usize, r: usize, spare: bool, plan: Plan, ctx: &mut Ctx
 
 const MENU_LEN: usize = 7;
 
+/// For the checks of other properties: every owned array that survives (operation instance, k-th call into
+/// caller code panicking and caught) for every operation of `ops_for(c, r)`, handed to `f` together with a
+/// description. `f` owns the survivor: it must drop it, or forget it if it is not trustworthy. The fault-free
+/// run is included (k = None). Arrays created by the operation (clones, conversions) are leaked.
+pub fn for_each_survivor(c: usize, r: usize, ctx: &mut Ctx, f: &mut dyn FnMut(TooDee<Tracked>, &str, &mut crate::engine::Case)) {
+    for op in ops_for(c, r) {
+        if !needs_array(&op) || matches!(op, FOp::DropArray) {
+            continue;
+        }
+        let mut ticks = 0u64;
+        ctx.pilot_case(
+            || format!("TooDee<Tracked> {}x{} after {:?} (no fault)", c, r, op),
+            |cs| {
+                let mut st = St { t: Some(build(c, r, false)), extra: Vec::new(), held: Vec::new() };
+                ledger::arm(u64::MAX);
+                let _ = guarded(|| exec(&op, c, r, &mut st));
+                ticks = ledger::disarm();
+                cs.outcome("fault-free");
+                cs.nontrivial((c, r, &op, "fault-free"));
+                std::mem::forget(std::mem::take(&mut st.extra));
+                if let Some(t) = st.t.take() {
+                    f(t, &format!("after {:?}", op), cs);
+                }
+            },
+        );
+        for k in 0..ticks {
+            ctx.case(
+                || format!("TooDee<Tracked> {}x{} after {:?} with call #{} into caller code panicking (caught)", c, r, op, k),
+                |cs| {
+                    let mut st = St { t: Some(build(c, r, false)), extra: Vec::new(), held: Vec::new() };
+                    ledger::arm(k);
+                    let _ = guarded(|| exec(&op, c, r, &mut st));
+                    ledger::disarm();
+                    let kind = ledger::fault_kind();
+                    cs.outcome("faulted");
+                    cs.nontrivial((c, r, &op, k));
+                    std::mem::forget(std::mem::take(&mut st.extra));
+                    if let Some(t) = st.t.take() {
+                        f(t, &format!("after {:?} with a caught panic in {} (call #{})", op, kind, k), cs);
+                    }
+                },
+            );
+        }
+    }
+}
+
 fn run_op(op: &FOp, c: usize, r: usize, spare: bool, second: bool, ctx: &mut Ctx) {
     let o = run_plan(op, c, r, spare, Plan { k1: None, second: None }, ctx);
     for k in 0..o.ticks1 {
